@@ -41,6 +41,29 @@ class Token:
         raise Unsupported("ordering of external tokens")
 
 
+class SymToken:
+    """an external constant of symbolic identity (e.g. an arbitrary torch dtype): two tokens of one family are equal iff
+    their integer ids are"""
+
+    def __init__(self, family, zid):
+        self.family, self.zid = family, zid
+
+    def __repr__(self):
+        return f"<{self.family}:{self.zid}>"
+
+    def __vf_compare__(self, I, op, a, b):
+        import ast
+        if isinstance(a, SymToken) and isinstance(b, SymToken) and a.family == b.family:
+            same = to_z3(a.zid) == to_z3(b.zid)
+        else:
+            same = False
+        if isinstance(op, (ast.Eq, ast.Is)):
+            return same
+        if isinstance(op, (ast.NotEq, ast.IsNot)):
+            return z3.Not(same) if is_z3(same) else not same
+        raise Unsupported("ordering of external tokens")
+
+
 class Deque:
     """collections.deque restricted to append / appendleft / pop / popleft / len / truthiness / iteration"""
 
